@@ -49,7 +49,12 @@ class StochHooks(Hooks):
             sig = repr((fn, [it.dig(it.resolve(x)) for x in ev.get('a', [])], {kk: v for kk, v in k.items() if kk != 'seed'}))
             d = it.dig(out.value)
             seeds = self.by_call.setdefault(sig, {})
-            sd = repr(k.get('seed'))
+            sv = k.get('seed')
+            if isinstance(sv, list):            # canonical form of a numpy seed: trailing zero words do not count
+                while len(sv) > 1 and sv[-1] == 0:
+                    sv = sv[:-1]
+                sv = sv[0] if len(sv) == 1 else sv
+            sd = repr(sv)
             if sd in seeds:
                 it.probe('check:repro')
                 it.fault('dup')
@@ -279,7 +284,8 @@ class StochasticScenario(Scenario):
             if r < 0.3:      # a neighbour of the previous integer seed (s+1, s-1, s^1): still a different seed
                 s_ = max(0, last_seed[0] + rng.choice([1, -1, (last_seed[0] ^ 1) - last_seed[0]]))
             else:
-                s_ = rng.choice([0, rng.randrange(2 ** 31), rng.randrange(100), [rng.randrange(100), rng.randrange(100)]])
+                # (array seeds never end in 0: numpy's SeedSequence pads with zeros, so [7, 0] IS the seed 7)
+                s_ = rng.choice([0, rng.randrange(2 ** 31), rng.randrange(100), [rng.randrange(100), rng.randrange(1, 100)]])
             if isinstance(s_, int):
                 last_seed[0] = s_
             return s_
